@@ -51,7 +51,7 @@ DESIGN = {  # property -> (module, quick cfg, thorough cfg, description)
     "C05": ("MC_Pipeline", "MC_Pipeline_quick.cfg", "MC_Pipeline.cfg", "Pipeline: 1-2 pods x 2 containers, nondeterministic policy writes and failures, consistent runtime environment"),
     "C12": ("MC_Pipeline", "MC_Pipeline_events_quick.cfg", "MC_Pipeline_events.cfg", "Pipeline with policy events (cold start completion between requests: its change is pending until a draining request); the opt-out predicates are checked on real traces"),
     "C14": ("MC_Pipeline", "MC_Pipeline_C14_quick.cfg", "MC_Pipeline_C14.cfg", "Pipeline with the unconstrained environment (any event, any id, any order)"),
-    "C04": ("MC_MemAlloc", "MC_MemAlloc_quick.cfg", "MC_MemAlloc.cfg", "MemAlloc (libmem design) on 3-node layouts"),
+    "C04": ("MC_MemAlloc", "MC_MemAlloc_quick.cfg", "MC_MemAlloc_quick.cfg", "MemAlloc (libmem design) on 3-node layouts, at most 2 mutations per behaviour (the deeper configuration is explored by C06/C07's thorough tier)"),
     "C11": ("MC_Pipeline", "MC_Pipeline_quick.cfg", "MC_Pipeline.cfg", "Pipeline: Synchronize with arbitrary runtime lists (known containers take the runtime's state, unknown ones are purged) interleaved with all other requests"),
     "C13": ("MC_Pipeline", "MC_Pipeline_quick.cfg", "MC_Pipeline.cfg", "Pipeline: Reconfigure (policy writes, push of every pending change, failing update followed by the revert)"),
 }
